@@ -102,13 +102,16 @@ LEVEL['C14'] = dict(
     note=PARTIAL + 'Here: 1 mm closure and 3e-7 / 5e-7 scale-factor comparisons (search). Known findings: vincdir_utm at the '
          'equator and at the latitude limits.' + TRUST)
 LEVEL['C16'] = dict(
-    technique='Lean 4 theorems over the regenerated model using Mathlib Matrix algebra (orthonormality, det, similarity invariants charpoly/trace/det, PosSemidef, eigen equations of the error ellipse, table logic) + translator validation (scaled tolerance on BLAS paths)',
+    technique='Lean 4 theorems over the regenerated model using Mathlib Matrix algebra (orthonormality, det, similarity invariants charpoly/trace/det, PosSemidef, eigen equations of the error ellipse, table logic, Student-t quantile table by closed-form coverage + kernel-evaluated rational brackets) + translator validation (scaled tolerance on BLAS paths)',
     text='Machine-checked for all inputs: the rotation matrix is orthonormal with det 1 and its up column is the ellipsoid '
          'normal; ENU↔XYZ are exact inverses and isometries; covariance rotation is RᵀVR (symmetry, trace, det, '
          'characteristic polynomial, PSD preserved; round trip exact; 3x1 = rotated diagonal); error-ellipse semi-axes '
          'squared are the eigenvalues of the horizontal block, orientation is an eigenvector bearing, singular blocks give '
-         'minor axis 0; relative error is the ellipse of Rᵀ(V1+V2−C−Cᵀ)R; coverage-factor table logic and monotonicity.',
-    note=PARTIAL + 'Here: the t-quantile values (scipy comparison only) and binary64 rounding.' + TRUST)
+         'minor axis 0; relative error is the ellipse of Rᵀ(V1+V2−C−Cᵀ)R; coverage-factor table logic and monotonicity; '
+         'and for every ν in 1..120 the unique q ≥ 0 with two-sided Student-t coverage 95 % is within 0.000005 of the '
+         'tabulated value returned by k_val95 (closed forms of ∫cos^n, Gregory-series and argument-reduction bounds of '
+         'arctan, 20-digit bounds of π, rational enclosures of √ν; 240 inequalities evaluated by the kernel in exact ℚ).',
+    note=PARTIAL + 'Here: binary64 rounding of the rotations, eigenvalues and square roots (search).' + TRUST)
 
 HOOKS['source_commits'] = ['cefc354']
 
